@@ -19,6 +19,10 @@ def excCls? : Sexp → Option ExcCls
   | .atom "KeyError" => some .keyError | .atom "AssertionError" => some .assertionError
   | .atom "KeyboardInterrupt" => some .keyboardInterrupt | .atom "SystemExit" => some .systemExit
   | .atom "NotImplementedError" => some .notImplementedError
+  | .atom "MetaError" => some .metaError | .atom "MetaSub" => some .metaSub
+  | .atom "MetaValueError" => some .metaValueError | .atom "OddError" => some .oddError
+  | .atom "StrRaisesError" => some .strRaisesError | .atom "UserInterrupt" => some .userInterrupt
+  | .atom "UserExit" => some .userExit
   | .atom "Unstable" => some .unstable
   | .atom "OracleMiss" => some .oracleMiss | .atom "Any" => some .anyCls
   | _ => none
@@ -29,8 +33,21 @@ def ofExcCls : ExcCls → Sexp
   | .keyError => .atom "KeyError" | .assertionError => .atom "AssertionError"
   | .keyboardInterrupt => .atom "KeyboardInterrupt" | .systemExit => .atom "SystemExit"
   | .notImplementedError => .atom "NotImplementedError"
+  | .metaError => .atom "MetaError" | .metaSub => .atom "MetaSub"
+  | .metaValueError => .atom "MetaValueError" | .oddError => .atom "OddError"
+  | .strRaisesError => .atom "StrRaisesError" | .userInterrupt => .atom "UserInterrupt"
+  | .userExit => .atom "UserExit"
   | .unstable => .atom "Unstable"
   | .oracleMiss => .atom "OracleMiss" | .anyCls => .atom "Any"
+
+/-- the classes of `MatchesException(<class or tuple of classes>)` / `raises(...)`.  A leading atom `NT` is a realisation hint
+for the harness (the tuple is given as a NAMED tuple, i.e. an instance of a tuple subclass): to the model it is the same tuple. -/
+def excClasses? : List Sexp → Option (List ExcCls)
+  | .atom "NT" :: cs => cs.mapM excCls?
+  | cs => cs.mapM excCls?
+def excClassList? : Sexp → Option (List ExcCls)
+  | .list cs => excClasses? cs
+  | _ => none
 
 def exc? (c a : Sexp) : Option Exc := do some ⟨← excCls? c, ← int? a⟩
 
@@ -154,14 +171,14 @@ partial def m? : Sexp → Option M
   | .list [.atom "always"] => some (.leaf .always)
   | .list [.atom "never"] => some (.leaf .never)
   | .list (.atom "keys" :: ks) => (ks.mapM key?).map (.leaf ∘ .keysEqual)
-  | .list [.atom "exctype", cs] => (list? excCls? cs).map (.leaf ∘ .excType)
-  | .list [.atom "exctypeV", cs, vm] => do some (.excTypeV (← list? excCls? cs) (← m? vm))
+  | .list [.atom "exctype", cs] => (excClassList? cs).map (.leaf ∘ .excType)
+  | .list [.atom "exctypeV", cs, vm] => do some (.excTypeV (← excClassList? cs) (← m? vm))
   | .list [.atom "exctypeRe", cs, o] => do
-      some (.excTypeV (← list? excCls? cs) (.after .strOf false (.leaf (← opaque? o))))
+      some (.excTypeV (← excClassList? cs) (.after .strOf false (.leaf (← opaque? o))))
   | .list [.atom "excinst", c, a] => (exc? c a).map (.leaf ∘ .excInst)
   | .list [.atom "raisesAny"] => some (.leaf .raisesAny)
   | .list [.atom "raises", em] => (m? em).map .raises
-  | .list (.atom "raisesFn" :: cs) => (cs.mapM excCls?).map fun cs => .raises (.leaf (.excType cs))
+  | .list (.atom "raisesFn" :: cs) => (excClasses? cs).map fun cs => .raises (.leaf (.excType cs))
   | .list [.atom "raisesInst", c, a] => (exc? c a).map fun e => .raises (.leaf (.excInst e))
   | .list (.atom "opq" :: rest) => (opaque? (.list (.atom "opq" :: rest))).map .leaf
   | .list (.atom "pred" :: rest) => (predicate? (.list (.atom "pred" :: rest))).map .leaf
